@@ -31,7 +31,7 @@ def firstFail (checks : List (String × Bool)) : Option String :=
     another family is left to that property's own check -/
 def viewFamilies : List (String × List String) :=
   [("C12", ["C12", "C01", "C10"]), ("C15", ["C15", "C12", "C01", "C10"]), ("C19", ["C19", "C01", "C02"]), ("C18", ["C18", "C09", "C10"]),
-   ("C09", ["C09"]), ("C14", ["C14", "C05"]), ("C11", ["C11"]), ("C10", ["C10"]), ("C20", ["C20"])]
+   ("C09", ["C09"]), ("C14", ["C14", "C05"]), ("C07", ["C07", "C01: a key identifier", "C19: a key identifier"]), ("C11", ["C11"]), ("C10", ["C10"]), ("C20", ["C20"])]
 
 def viewAccepts (view clause : String) : Bool :=
   view == "" || clause == "" || clause.startsWith "C20" ||
